@@ -29,5 +29,9 @@ XB(x) == 2 - xa[x]
 Expected2 == { <<"T1", x, 0>> : x \in { xx \in 1..2 : xa[xx] = 1 } }
              \cup { <<"T2", p[1], p[2]>> : p \in { q \in (1..2) \X (1..3) : xa[q[1]] # 1 /\ ya[q[2]] = XB(q[1]) } }
              \cup { <<"T0", x, 0>> : x \in { xx \in 1..2 : xa[xx] # 1 /\ ~\E z \in 1..3 : ya[z] = XB(xx) } }
+\* Third template: the second rule with a base condition that joins a further variable u having TWO matches for every x
+\* (u.a == 0 over {u1, u2}): two base bindings share the values of every conclusion variable.  Conclusions are built from the
+\* conclusion variables only, so the set of inferred instances is that of the second template.
+Expected3 == Expected2
 Emit == PrintT(ToJson([xa |-> xa, ya |-> ya, exp |-> Expected, exp2 |-> Expected2]))
 ====
